@@ -608,6 +608,7 @@ type oInterp struct {
 	missing  map[string]bool
 	fills    map[*ssa.Function]map[ssa.Instruction]ssa.Value // map-fill idiom: store/append -> parallel source slice
 	refine   map[ssa.Instruction]*oRefine                     // last call outcome per call instruction (current context)
+	lastOK   *OState                                          // state at the success returns of the function analysed last
 	curEq    uint8                                            // eq flag of the state being stepped
 	geomW    map[*ssa.Function]bool                           // functions that (transitively) write NumLeaves / TotalRows of the map forest
 }
@@ -976,6 +977,7 @@ func (it *oInterp) analyze(fn *ssa.Function, args []*OV, in *OState, site ssa.In
 		return eff
 	}
 	me.out, me.okOut, me.errOut = effect(out), effect(okOut), effect(errOut)
+	it.lastOK = okOut
 	if site != nil {
 		it.refine[site] = &oRefine{ok: okOut, err: errOut}
 	}
